@@ -261,6 +261,19 @@ func (e *env) seedHigh(id uint64) {
 	}
 }
 
+// watch runs a store call of a scenario that uses holds. If the call does not return within the
+// watchdog (the store waits for a parked storage operation while holding its lock, say) every hold is
+// released so that it can return, and the case ends inconclusive.
+func (e *env) watch(what string, f func()) {
+	var fired atomic.Bool
+	t := time.AfterFunc(watchdog, func() { fired.Store(true); e.gl.ReleaseAll() })
+	f()
+	t.Stop()
+	if fired.Load() {
+		e.c.Inconclusive("%s did not return within the watchdog while a storage operation was parked; holds released", what)
+	}
+}
+
 // quiesce waits until every goroutine the store started has finished (or is parked at a hold).
 // Wall clock only bounds the wait: giving up is inconclusive.
 func (e *env) quiesce() {
